@@ -82,6 +82,7 @@ type termPool struct {
 	vars  []*Term
 	strs  map[string]uint64 // interned concrete strings for the opaque-string sort
 	strsR []string
+	onVar func(*Term)
 }
 
 func newTermPool() *termPool {
@@ -118,6 +119,9 @@ func (p *termPool) mk(op string, sort sortKind, cval uint64, name string, args .
 	p.tab[k] = t
 	if op == "var" {
 		p.vars = append(p.vars, t)
+		if p.onVar != nil {
+			p.onVar(t)
+		}
 	}
 	return t
 }
@@ -679,4 +683,176 @@ func isSymbolic(x value) bool {
 		return true
 	}
 	return false
+}
+
+// ---------------------------------------------------------------------------
+// evaluation of a term under a model (values of the variables; missing = 0)
+
+type evaluator struct {
+	vars map[*Term]uint64
+	memo map[*Term]uint64
+}
+
+func newEvaluator() *evaluator {
+	return &evaluator{vars: map[*Term]uint64{}, memo: map[*Term]uint64{}}
+}
+
+func (e *evaluator) reset(vars map[*Term]uint64) {
+	e.vars = vars
+	e.memo = map[*Term]uint64{}
+}
+
+func (e *evaluator) eval(t *Term) uint64 {
+	switch t.op {
+	case "const":
+		return t.cval
+	case "var":
+		return e.vars[t]
+	}
+	if v, ok := e.memo[t]; ok {
+		return v
+	}
+	var r uint64
+	a := t.args
+	b2u := func(b bool) uint64 {
+		if b {
+			return 1
+		}
+		return 0
+	}
+	switch t.op {
+	case "not":
+		r = 1 - e.eval(a[0])
+	case "and":
+		r = e.eval(a[0])
+		if r != 0 {
+			r = e.eval(a[1])
+		}
+	case "or":
+		r = e.eval(a[0])
+		if r == 0 {
+			r = e.eval(a[1])
+		}
+	case "ite":
+		if e.eval(a[0]) != 0 {
+			r = e.eval(a[1])
+		} else {
+			r = e.eval(a[2])
+		}
+	case "=":
+		r = b2u(e.eval(a[0]) == e.eval(a[1]))
+	case "bvneg":
+		r = (-e.eval(a[0])) & mask(t.sort.bits())
+	case "bvnot":
+		r = (^e.eval(a[0])) & mask(t.sort.bits())
+	case "bvult", "bvule", "bvslt", "bvsle":
+		x, y := e.eval(a[0]), e.eval(a[1])
+		bits := a[0].sort.bits()
+		switch t.op {
+		case "bvult":
+			r = b2u(x < y)
+		case "bvule":
+			r = b2u(x <= y)
+		case "bvslt":
+			r = b2u(signExt(x, bits) < signExt(y, bits))
+		default:
+			r = b2u(signExt(x, bits) <= signExt(y, bits))
+		}
+	case "bvadd", "bvsub", "bvmul", "bvand", "bvor", "bvxor", "bvshl", "bvlshr", "bvashr", "bvudiv", "bvurem", "bvsdiv", "bvsrem":
+		x, y := e.eval(a[0]), e.eval(a[1])
+		bits := t.sort.bits()
+		m := mask(bits)
+		switch t.op {
+		case "bvadd":
+			r = (x + y) & m
+		case "bvsub":
+			r = (x - y) & m
+		case "bvmul":
+			r = (x * y) & m
+		case "bvand":
+			r = x & y
+		case "bvor":
+			r = x | y
+		case "bvxor":
+			r = x ^ y
+		case "bvshl":
+			if y >= uint64(bits) {
+				r = 0
+			} else {
+				r = (x << y) & m
+			}
+		case "bvlshr":
+			if y >= uint64(bits) {
+				r = 0
+			} else {
+				r = x >> y
+			}
+		case "bvashr":
+			sx := signExt(x, bits)
+			if y >= uint64(bits) {
+				if sx < 0 {
+					r = m
+				} else {
+					r = 0
+				}
+			} else {
+				r = uint64(sx>>y) & m
+			}
+		case "bvudiv":
+			if y == 0 {
+				r = m
+			} else {
+				r = x / y
+			}
+		case "bvurem":
+			if y == 0 {
+				r = x
+			} else {
+				r = x % y
+			}
+		case "bvsdiv":
+			sx, sy := signExt(x, bits), signExt(y, bits)
+			switch {
+			case sy == 0:
+				if sx >= 0 {
+					r = m
+				} else {
+					r = 1
+				}
+			case sy == -1:
+				r = uint64(-sx) & m
+			default:
+				r = uint64(sx/sy) & m
+			}
+		case "bvsrem":
+			sx, sy := signExt(x, bits), signExt(y, bits)
+			switch {
+			case sy == 0:
+				r = x
+			case sy == -1:
+				r = 0
+			default:
+				r = uint64(sx%sy) & m
+			}
+		}
+	default:
+		var n int
+		switch {
+		case fmtSscan(t.op, "(_ extract %d 0)", &n):
+			r = e.eval(a[0]) & mask(n+1)
+		case fmtSscan(t.op, "(_ sign_extend %d)", &n):
+			r = uint64(signExt(e.eval(a[0]), a[0].sort.bits())) & mask(t.sort.bits())
+		case fmtSscan(t.op, "(_ zero_extend %d)", &n):
+			r = e.eval(a[0])
+		default:
+			panic("evaluator: unknown operator " + t.op)
+		}
+	}
+	e.memo[t] = r
+	return r
+}
+
+func fmtSscan(s, format string, n *int) bool {
+	k, err := fmt.Sscanf(s, format, n)
+	return err == nil && k == 1
 }
